@@ -9,6 +9,8 @@ from mc import choice
 from mc import dnaspecs as D
 from mc.props.c11 import shape
 
+C = D.C
+
 KEY_TYPES = ('id', 'name_or_id', 'dna_spec')
 VALUE_TYPES = ('value', 'dna', 'choice', 'literal', 'choice_and_literal')
 MC_KEYS = ('subchoice', 'parent', 'both')
@@ -188,10 +190,10 @@ def spec_item(rec, item):
       ('ctor(spec=)', lambda x: pg.DNA(x.to_numbers(flatten=False), spec=spec)),
       ('from_dict(reordered bound sub-DNAs)', lambda x: _from_reordered(x, spec)),
   ]
-  starts = [('iter_dna', x) for x in itertools.islice(spec.iter_dna(), 4 if tier != 'thorough' else 40)]
+  starts = [('iter_dna', x) for x in itertools.islice(spec.iter_dna(), 4 if tier != 'thorough' else 16)]
   first = spec.first_dna()
   starts.append(('first_dna', first))
-  for choices_, res, _ in choice.explore(lambda ch: spec.random_dna(ch), max_execs=6 if tier != 'thorough' else 200):
+  for choices_, res, _ in choice.explore(lambda ch: spec.random_dna(ch), max_execs=6 if tier != 'thorough' else 40):
     if res == 'CAP':
       break
     starts.append((f'random_dna{choices_}', res))
@@ -212,7 +214,7 @@ def spec_item(rec, item):
         continue
       rec.trans += 1
       aligned(y, spec, rec, p1, base, dict(tr, start=sname, chain=[p1]))
-      if tier == 'thorough' or sname in ('first_dna',):
+      if sname in ('first_dna',) or (tier == 'thorough' and sname == 'iter_dna' and x is starts[min(3, len(starts) - 1)][1]):
         for p2, f2 in producers:
           try:
             z = f2(y)
@@ -267,6 +269,10 @@ def run(ctx):
   g = D.grammar(60 if ctx.thorough else 30, 'thorough' if ctx.thorough else 'quick')
   if not ctx.thorough:
     g = g[::3]
+  # conditional chains three deep (a choice inside a choice inside a choice), alone and next to a sibling decision
+  chain3 = ('one', (C, ('space', (('one', (C, ('space', (('one', (C, C)),)))),))))
+  g = list(g) + [('space', (chain3,)), ('space', (chain3, ('one', (C, C)))),
+                 ('space', (('many', 2, (C, ('space', (('one', (C, ('space', (('one', (C, C)),)))),))), False, False),))]
   items = [(d, v, ctx.tier) for d in g for v in ((False, False), (True, True))]
   ctx.pmap(spec_item, items, chunk=1)
   ctx.states += len(items)
